@@ -246,10 +246,170 @@ def _role(e):
     return '?'
 
 
+@guarded
+def rule_degree(repo, tier):
+    """mat2Sim3 / mat2RxSO3: the quantity the "not full rank" guard compares with the tolerance has the homogeneity degree of the scale itself
+    (degree 1 in the matrix entries: s = det^(1/3)), the same in both siblings.  det is of degree 3: the same atol applied to det rejects every
+    valid scaled rotation with s < atol^(1/3) (0.02 for the default 1e-5)."""
+    res = RuleResult('C11.DEG', 'mat2Sim3 / mat2RxSO3: the rank guard tests a quantity of scale-degree 1 (the scale they return), identically in both', floor=2)
+
+    def degree(e, env, depth=0):
+        if depth > 10:
+            return None
+        if isinstance(e, ast.Name):
+            return env.get(e.id)
+        if isinstance(e, ast.Subscript):
+            return degree(e.value, env, depth + 1)
+        if isinstance(e, ast.Constant):
+            return 0
+        if isinstance(e, ast.Call):
+            name = (dotted(e.func) or (e.func.attr if isinstance(e.func, ast.Attribute) else '')).split('.')[-1]
+            args = list(e.args)
+            if isinstance(e.func, ast.Attribute) and not (dotted(e.func) or '').startswith(('torch.', 'math.')):
+                args = [e.func.value] + args
+            if name == 'det' and args:
+                d = degree(args[0], env, depth + 1)
+                return None if d is None else 3 * d
+            if name in ('pow',) and len(args) >= 2:
+                d = degree(args[0], env, depth + 1)
+                try:
+                    ex = eval(compile(ast.Expression(args[1]), '<e>', 'eval'), {'__builtins__': {}})
+                except Exception:
+                    return None
+                return None if d is None else d * ex
+            if name in ('sqrt',) and args:
+                d = degree(args[0], env, depth + 1)
+                return None if d is None else d / 2
+            if name in ('cbrt',) and args:
+                d = degree(args[0], env, depth + 1)
+                return None if d is None else d / 3
+            if name in ('unsqueeze', 'squeeze', 'abs', 'norm', 'view', 'reshape', 'clone', 'mean', 'sum', 'contiguous', 'flatten', 'expand', 'to') and args:
+                return degree(args[0], env, depth + 1)
+            if name in ('zeros', 'zeros_like', 'ones', 'ones_like'):
+                return 0
+            return None
+        if isinstance(e, ast.BinOp):
+            l, r = degree(e.left, env, depth + 1), degree(e.right, env, depth + 1)
+            if isinstance(e.op, ast.Pow):
+                try:
+                    ex = eval(compile(ast.Expression(e.right), '<e>', 'eval'), {'__builtins__': {}})
+                except Exception:
+                    return None
+                return None if l is None else l * ex
+            if l is None or r is None:
+                return None
+            if isinstance(e.op, ast.Mult):
+                return l + r
+            if isinstance(e.op, ast.Div):
+                return l - r
+            if isinstance(e.op, ast.MatMult):
+                return l + r
+            if isinstance(e.op, (ast.Add, ast.Sub)):
+                return l if l == r or r == 0 else (r if l == 0 else None)
+        if isinstance(e, ast.Attribute) and e.attr in ('mT', 'T'):
+            return degree(e.value, env, depth + 1)
+        return None
+    degs = {}
+    for q in ('mat2Sim3', 'mat2RxSO3'):
+        f = repo.func(CV, q)
+        env = {f.pos_params[0]: 1}
+        guard = None
+        for st in ast.walk(f.node):
+            if isinstance(st, ast.Assign) and len(st.targets) == 1 and isinstance(st.targets[0], ast.Name):
+                env[st.targets[0].id] = degree(st.value, env)
+        for st in ast.walk(f.node):
+            if isinstance(st, ast.If) and any(isinstance(x, ast.Raise) for x in st.body) and \
+                    any(isinstance(c, ast.Constant) and isinstance(c.value, str) and 'rank' in c.value for x in st.body for c in ast.walk(x)):
+                guard = st
+        if guard is None:
+            raise AnalysisError('C11.DEG: the "not full rank" guard of %s was not found' % q)
+        tested = None
+        for c in ast.walk(guard.test):
+            if isinstance(c, ast.Call) and (dotted(c.func) or '').split('.')[-1] in ('allclose', 'isclose') and c.args:
+                tested = c.args[0]
+            elif isinstance(c, ast.Compare) and tested is None:
+                tested = c.left
+        d = degree(tested, env) if tested is not None else None
+        degs[q] = d
+        res.inst({'function': f.fq, 'guard': src(guard.test)[:70], 'tested quantity': src(tested)[:40] if tested is not None else None, 'scale degree': d}, f.fq)
+        if d is None:
+            raise AnalysisError('C11.DEG: homogeneity degree of `%s` in %s could not be inferred' % (src(tested)[:40] if tested is not None else '?', q))
+        if abs(d - 1) > 1e-9:
+            res.add(Finding('C11.DEG', f, '%s: the rank guard compares `%s`, a quantity of degree %g in the scale, with the tolerance meant for the scale '
+                            '(degree 1): valid scaled rotations with a small scale are rejected (or degenerate ones accepted)' % (q, src(tested)[:40], d), node=guard))
+    return res
+
+
+ANGLE_FUNCS = {'asin', 'arcsin', 'acos', 'arccos', 'atan', 'arctan', 'atan2', 'arctan2'}
+
+
+@guarded
+def rule_gimbal(repo, tier):
+    """euler(): the gimbal-lock band is tested on the SINE of the pitch - the same quantity whose asin is returned as the pitch - against a
+    bound of the form 1 - eps.  A bound near 1 is a statement about a sine; applied to the angle itself (radians) it declares every pitch
+    beyond about 57 degrees singular and discards roll there."""
+    res = RuleResult('C11.KIND', 'LieTensor.euler: the singularity flag compares |sin(pitch)| (the argument of the asin that yields the pitch) with a '
+                     'bound 1 - eps; it is not applied to an angle', floor=1)
+    f = repo.func('pypose.lietensor.lietensor', 'LieTensor.euler')
+    assigns = {}
+    for n in ast.walk(f.node):
+        if isinstance(n, ast.Assign) and len(n.targets) == 1 and isinstance(n.targets[0], ast.Name):
+            assigns.setdefault(n.targets[0].id, []).append(n.value)
+
+    def strip(e):
+        while True:
+            if isinstance(e, ast.Call) and isinstance(e.func, ast.Attribute) and e.func.attr in ('abs', 'clamp', 'clip', 'clone', 'detach') :
+                e = e.func.value
+            elif isinstance(e, ast.Call) and (dotted(e.func) or '').split('.')[-1] in ('abs', 'clamp', 'clip') and e.args:
+                e = e.args[0]
+            else:
+                return e
+
+    def is_angle(e, depth=0):
+        e = strip(e)
+        if isinstance(e, ast.Call) and (dotted(e.func) or (e.func.attr if isinstance(e.func, ast.Attribute) else '')).split('.')[-1] in ANGLE_FUNCS:
+            return True
+        if isinstance(e, ast.Name) and depth < 4:
+            vs = assigns.get(e.id, [])
+            return len(vs) == 1 and is_angle(vs[0], depth + 1)
+        return False
+    asins = [c for c in ast.walk(f.node) if isinstance(c, ast.Call) and (dotted(c.func) or (c.func.attr if isinstance(c.func, ast.Attribute) else '')).split('.')[-1]
+             in ('asin', 'arcsin')]
+    if len(asins) != 1:
+        raise AnalysisError('C11.KIND: LieTensor.euler has %d asin calls, expected the pitch' % len(asins))
+    a = asins[0]
+    sine = strip(a.args[0] if a.args else a.func.value)
+    flags = []
+    for n in ast.walk(f.node):
+        if isinstance(n, ast.Compare) and len(n.ops) == 1 and isinstance(n.ops[0], (ast.Lt, ast.LtE, ast.Gt, ast.GtE)):
+            sides = [n.left, n.comparators[0]]
+            for k, t in enumerate(sides):
+                near_one = any(isinstance(c, ast.Constant) and isinstance(c.value, (int, float)) and c.value == 1 for c in ast.walk(t)) and \
+                    any(isinstance(c, ast.Name) and 'eps' in c.id for c in ast.walk(t))
+                if near_one:
+                    flags.append((n, sides[1 - k], t))
+    if not flags:
+        raise AnalysisError('C11.KIND: the gimbal-lock test (|.| < 1 - eps) of LieTensor.euler was not found')
+    for n, qty, bound in flags:
+        q = strip(qty)
+        same = dump(q) == dump(sine)
+        ang = is_angle(qty)
+        bound_angle = any(isinstance(c, ast.Attribute) and c.attr == 'pi' for c in ast.walk(bound)) or is_angle(bound)
+        ok = same and not ang
+        res.inst({'function': f.fq, 'test': src(n)[:60], 'tested quantity is the asin argument': same, 'tested quantity is an angle': ang}, src(n))
+        if ang and not bound_angle:
+            res.add(Finding('C11.KIND', f, '`%s` compares an ANGLE with a bound of the form 1 - eps (a bound for a sine): every pitch beyond about 1 rad is '
+                            'treated as gimbal lock and its roll is discarded' % src(n)[:60], node=n))
+        elif not same and not bound_angle:
+            res.add(Finding('C11.KIND', f, '`%s` tests `%s` while the pitch is asin(`%s`): the singular band is decided on another quantity than the one '
+                            'whose asin is returned' % (src(n)[:60], src(q)[:30], src(sine)[:30]), node=n))
+    return res
+
+
 def _rules_core(repo, tier):
     from ..effects import rule_pure
     t = [(CV, q) for q in ('mat2SO3', 'mat2SE3', 'mat2Sim3', 'mat2RxSO3', 'from_matrix', 'euler2SO3', 'quat2unit')]
-    return rule_mp_pair(repo) + [rule_fwd(repo), rule_raise(repo), rule_disp(repo), rule_lt(repo),
+    return rule_mp_pair(repo) + [rule_fwd(repo), rule_raise(repo), rule_disp(repo), rule_lt(repo), rule_gimbal(repo, tier), rule_degree(repo, tier),
                                  rule_pure(repo, 'C11.PURE', 'the converters do not write into the matrix / angles they are given (also not on the rejecting '
                                            'path): converting the same tensor twice gives the same element', t)]
 
